@@ -7,7 +7,7 @@ Source 2: histories the real engine produces (shadow model attached inside C04/C
 from __future__ import annotations
 
 from .. import libpath  # noqa: F401
-from ..kernel import Sim, set_current
+from ..kernel import Sim, SimBudget, set_current
 from ..runner import Result
 from . import Prop
 
@@ -72,11 +72,14 @@ class C20(Prop):
     level = "exploration"
     title = "The result-cache index returns exactly the stored entries matching a lookup"
     campaigns = {
-        "quick": [("plain", 400000, 40), ("known:siblings", 4000, 30)],
-        "thorough": [("plain", 6000000, 600), ("known:siblings", 40000, 300)],
+        "quick": [("plain", 400000, 40), ("engine", 6000, 60), ("known:siblings", 4000, 30),
+                  ("known:engine_siblings", 500, 40)],
+        "thorough": [("plain", 6000000, 600), ("engine", 150000, 1200), ("known:siblings", 40000, 300),
+                     ("known:engine_siblings", 60000, 600)],
     }
     chunk = 2000
-    vacuity = {"quick": ["probe:wildcard_level_traversed", "probe:overwrite", "probe:retrieve_multi",
+    vacuity = {"quick": ["probe:engine_retrieve_judged", "probe:engine_check_judged", "probe:engine_insert_partial_binding",
+                         "probe:wildcard_level_traversed", "probe:overwrite", "probe:retrieve_multi",
                          "probe:check_true", "probe:check_false", "probe:lookup_with_extra_keys",
                          "probe:cleared_nonempty"]}
     rule = ("seeded histories of insert(full|partial non-empty binding, out) / check(lookup binding >=1 key) / "
@@ -95,6 +98,12 @@ class C20(Prop):
                   "stub": ["none: the index has no collaborators"]}
 
     def gen(self, rng, tier, campaign):
+        if "engine" in campaign:
+            # source 2: the histories the real engine produces while it evaluates seeded query pools
+            from .c05 import PROP as C05
+            plan = C05.gen(rng, tier, "main" if campaign == "engine" else "known:disjunction_over_different_variables")
+            plan["engine"] = True
+            return plan
         nk = rng.choice([1, 2, 2, 3, 3, 4])
         keys = rng.sample(range(1, 9), nk)
         nv = rng.choice([2, 2, 3])
@@ -155,7 +164,37 @@ class C20(Prop):
         ops.append(["check", rand_binding(0.3)])
         return {"keys": keys, "nvals": nv, "ops": ops}
 
+    def _execute_engine(self, plan):
+        from .c05 import PROP as C05
+        from ..spec import BuildError
+        from .. import seams
+        sim = Sim("C20")
+        sim.log_callbacks = False
+        set_current(sim)
+        res = Result()
+        seams.SHADOW_JUDGE_SIBLINGS = str(plan.get("campaign", "")).startswith("known:")
+        try:
+            try:
+                outs = C05._replica(plan, "A", sim, shadow=True)
+            except BuildError:
+                res.skipped = True
+                res.counters["build_failed"] += 1
+            except SimBudget:
+                res.skipped = True
+        finally:
+            seams.SHADOW_JUDGE_SIBLINGS = False
+            set_current(None)
+        res.violations = sim.violations[:1]
+        res.digest = sim.digest()
+        res.counters = sim.counters
+        res.signature = tuple(e[1:4] for e in sim.log if e[1] == "full")
+        res.nontrivial = sim.counters.get("probe:engine_retrieve_judged", 0) > 0
+        res.steps = sim.seq
+        return res
+
     def execute(self, plan):
+        if plan.get("engine"):
+            return self._execute_engine(plan)
         sim = Sim("C20")
         set_current(sim)
         res = Result()
@@ -259,6 +298,10 @@ class C20(Prop):
     # shrinking: shrink bindings / values
     def shrink_candidates(self, plan):
         import copy
+        if plan.get("engine"):
+            from .c04 import shrink_query_plan
+            yield from shrink_query_plan(plan)
+            return
         for i, op in enumerate(plan["ops"]):
             if op[0] in ("insert", "check", "retrieve") and isinstance(op[1], dict):
                 for k in list(op[1]):
